@@ -416,22 +416,27 @@ func evalPhiUnder(tb *TermBuilder, t *Term, val func(*Term) (bool, bool)) (*Term
 
 func santaLuciaDepend(c *Ctx, sl *ssa.Function, tb *TermBuilder, dHv ssa.Value) {
 	// DEPEND
-	concInDH := false
+	concInDH, concMaybe := false, false
 	var dHc []contrib
 	if dHv != nil {
 		dHc = additive(tb, dHv)
 	}
+	isConc := func(x *Term) bool { return x.isParam(1) || x.isParam(2) || x.isParam(3) }
 	for _, k := range dHc {
-		if k.T.contains(func(x *Term) bool { return x.isParam(1) || x.isParam(2) || x.isParam(3) }) {
-			concInDH = true
-		}
+		d, u := occurs(k.T, isConc)
+		concInDH = concInDH || d
+		concMaybe = concMaybe || u
 		for _, a := range k.Cond.atoms() {
-			if a.Atom.contains(func(x *Term) bool { return x.isParam(1) || x.isParam(2) || x.isParam(3) }) {
-				concInDH = true
-			}
+			d, u := occurs(a.Atom, isConc)
+			concInDH = concInDH || d
+			concMaybe = concMaybe || u
 		}
 	}
-	c.check(!concInDH, "DEPEND", "dH independent of concentrations", sl.Pos(), "no concentration parameter occurs in any dH contribution or its condition", "a concentration parameter flows into dH")
+	if !concInDH && concMaybe {
+		c.undecided("DEPEND", "dH independent of concentrations", sl.Pos(), "a concentration parameter is part of a composite (or call argument) from which a dH contribution is read; whether the part read depends on it is not followed")
+	} else {
+		c.check(!concInDH, "DEPEND", "dH independent of concentrations", sl.Pos(), "no concentration parameter occurs in any dH contribution or its condition", "a concentration parameter flows into dH")
+	}
 	rawUse := rawParamUses(tb, sl, 0, "strings.ToUpper")
 	var rawBad, rawUnknown []string
 	for _, u := range rawUse {
